@@ -64,6 +64,9 @@ Section RsCells.
   Lemma rs_nth_dep : nth_error (rs_cells bl p marks pc flg dep) 132 = Some (VInt dep).
   Proof. rewrite Rs. change (pre ++ [VInt pc; VInt flg; VInt dep]) with (pre ++ [VInt pc; VInt flg] ++ VInt dep :: []).
     rewrite app_assoc. apply nth_error_mid. rewrite app_length, pre_len. reflexivity. Qed.
+  Lemma rs_nth_mark j : (j < length marks)%nat -> nth_error (rs_cells bl p marks pc flg dep) (2 + j) = Some (VInt (nth j marks 0)).
+  Proof. intro Hj. unfold rs_cells. cbn [Nat.add nth_error]. rewrite nth_error_app1 by (rewrite map_length; exact Hj).
+    rewrite nth_error_map, (nth_error_nth' marks 0 Hj). reflexivity. Qed.
   Lemma rs_upd_s q : upd (rs_cells bl p marks pc flg dep) 0 (VPtr bl (Z.of_nat q)) = rs_cells bl q marks pc flg dep.
   Proof. reflexivity. Qed.
   Lemma rs_upd_pc v : upd (rs_cells bl p marks pc flg dep) 130 (VInt v) = rs_cells bl p marks v flg dep.
@@ -124,6 +127,39 @@ Definition re_rec_loop : stmt := match fn_body cf_re_rec with SSeq _ (SSeq _ (SS
 Definition re_rec_tail : stmt := match fn_body cf_re_rec with SSeq _ (SSeq _ (SSeq _ (SSeq _ t))) => t | _ => SSkip end.
 Definition re_rec_body : stmt := match re_rec_loop with SWhile _ b => b | _ => SSkip end.
 
+(* the state block holds R; loads and stores of its cells *)
+Section Cells.
+  Variables (br bl : nat) (flg : Z).
+  Variables (m : mem) (p : nat) (marks : list Z) (pc dep : Z).
+  Hypothesis Hm : nth_error m br = Some (rs_cells bl p marks pc flg dep).
+  Hypothesis Hlen : length marks = 128%nat.
+  Lemma ld_s : load m br 0 = Ok (VPtr bl (Z.of_nat p)).
+  Proof. exact (load_cell m br _ 0 _ Hm (rs_nth_s bl p marks pc flg dep) ltac:(clear; lia)). Qed.
+  Lemma ld_o : load m br (0 + 1 * 1) = Ok (VPtr bl 0).
+  Proof. exact (load_cell m br _ (0 + 1 * 1) _ Hm (rs_nth_o bl p marks pc flg dep) ltac:(clear; lia)). Qed.
+  Lemma ld_pc : load m br (0 + 1 * 130) = Ok (VInt pc).
+  Proof. exact (load_cell m br _ (0 + 1 * 130) _ Hm (rs_nth_pc bl p marks pc flg dep Hlen) ltac:(clear; lia)). Qed.
+  Lemma ld_dep : load m br (0 + 1 * 132) = Ok (VInt dep).
+  Proof. exact (load_cell m br _ (0 + 1 * 132) _ Hm (rs_nth_dep bl p marks pc flg dep Hlen) ltac:(clear; lia)). Qed.
+  Lemma st_pc v : store m br (0 + 1 * 130) (VInt v) = Ok (upd m br (rs_cells bl p marks v flg dep)).
+  Proof. rewrite (store_ok m br _ _ _ Hm) by (rewrite rs_length by exact Hlen; lia).
+    change (Z.to_nat (0 + 1 * 130)) with 130%nat. rewrite rs_upd_pc by exact Hlen. reflexivity. Qed.
+  Lemma st_dep v : store m br (0 + 1 * 132) (VInt v) = Ok (upd m br (rs_cells bl p marks pc flg v)).
+  Proof. rewrite (store_ok m br _ _ _ Hm) by (rewrite rs_length by exact Hlen; lia).
+    change (Z.to_nat (0 + 1 * 132)) with 132%nat. rewrite rs_upd_dep by exact Hlen. reflexivity. Qed.
+  Lemma st_mark (i : nat) v : (i < 128)%nat ->
+    store m br (0 + 1 * 2 + 1 * Z.of_nat i) (VInt v) = Ok (upd m br (rs_cells bl p (ReVM.upd marks i v) pc flg dep)).
+  Proof. intro Hi. rewrite (store_ok m br _ _ _ Hm) by (rewrite rs_length by exact Hlen; lia).
+    replace (Z.to_nat (0 + 1 * 2 + 1 * Z.of_nat i)) with (2 + i)%nat by lia. rewrite rs_upd_mark by assumption. reflexivity. Qed.
+  Lemma ld_mark (j : nat) : (j < 128)%nat -> load m br (0 + 1 * 2 + 1 * Z.of_nat j) = Ok (VInt (nth j marks 0)).
+  Proof. intro Hj. apply (load_cell m br _ _ _ Hm); [|clear; lia].
+    replace (Z.to_nat (0 + 1 * 2 + 1 * Z.of_nat j)) with (2 + j)%nat by (clear; lia). apply rs_nth_mark. clear - Hj Hlen. lia. Qed.
+  Lemma rs_state : rstate_at m br bl (rs_cells bl p marks pc flg dep) p flg.
+  Proof. split; [exact Hm|]. split; [reflexivity|]. split; [reflexivity|]. apply rs_nth_flg. exact Hlen. Qed.
+End Cells.
+Arguments ld_s {br bl flg}. Arguments ld_o {br bl flg}. Arguments ld_pc {br bl flg}. Arguments ld_dep {br bl flg}.
+Arguments st_pc {br bl flg}. Arguments st_dep {br bl flg}. Arguments st_mark {br bl flg}. Arguments ld_mark {br bl flg}. Arguments rs_state {br bl flg}.
+
 Section ReRec.
   Variables (bre bp br bl : nat) (P : list instr) (cflg flg : Z) (line : bytes) (fuel : nat).
   Hypothesis Hbre : br <> bre.
@@ -167,32 +203,6 @@ Section ReRec.
     intros b blk Hne Hn. rewrite nth_error_app1; [exact Hn|]. apply nth_error_Some. congruence.
   Qed.
 
-  (* the state block holds R; loads and stores of its cells *)
-  Section Cells.
-    Variables (m : mem) (p : nat) (marks : list Z) (pc dep : Z).
-    Hypothesis Hm : nth_error m br = Some (rs_cells bl p marks pc flg dep).
-    Hypothesis Hlen : length marks = 128%nat.
-    Lemma ld_s : load m br 0 = Ok (VPtr bl (Z.of_nat p)).
-    Proof. exact (load_cell m br _ 0 _ Hm (rs_nth_s bl p marks pc flg dep) ltac:(clear; lia)). Qed.
-    Lemma ld_o : load m br (0 + 1 * 1) = Ok (VPtr bl 0).
-    Proof. exact (load_cell m br _ (0 + 1 * 1) _ Hm (rs_nth_o bl p marks pc flg dep) ltac:(clear; lia)). Qed.
-    Lemma ld_pc : load m br (0 + 1 * 130) = Ok (VInt pc).
-    Proof. exact (load_cell m br _ (0 + 1 * 130) _ Hm (rs_nth_pc bl p marks pc flg dep Hlen) ltac:(clear; lia)). Qed.
-    Lemma ld_dep : load m br (0 + 1 * 132) = Ok (VInt dep).
-    Proof. exact (load_cell m br _ (0 + 1 * 132) _ Hm (rs_nth_dep bl p marks pc flg dep Hlen) ltac:(clear; lia)). Qed.
-    Lemma st_pc v : store m br (0 + 1 * 130) (VInt v) = Ok (upd m br (rs_cells bl p marks v flg dep)).
-    Proof. rewrite (store_ok m br _ _ _ Hm) by (rewrite rs_length by exact Hlen; lia).
-      change (Z.to_nat (0 + 1 * 130)) with 130%nat. rewrite rs_upd_pc by exact Hlen. reflexivity. Qed.
-    Lemma st_dep v : store m br (0 + 1 * 132) (VInt v) = Ok (upd m br (rs_cells bl p marks pc flg v)).
-    Proof. rewrite (store_ok m br _ _ _ Hm) by (rewrite rs_length by exact Hlen; lia).
-      change (Z.to_nat (0 + 1 * 132)) with 132%nat. rewrite rs_upd_dep by exact Hlen. reflexivity. Qed.
-    Lemma st_mark (i : nat) v : (i < 128)%nat ->
-      store m br (0 + 1 * 2 + 1 * Z.of_nat i) (VInt v) = Ok (upd m br (rs_cells bl p (ReVM.upd marks i v) pc flg dep)).
-    Proof. intro Hi. rewrite (store_ok m br _ _ _ Hm) by (rewrite rs_length by exact Hlen; lia).
-      replace (Z.to_nat (0 + 1 * 2 + 1 * Z.of_nat i)) with (2 + i)%nat by lia. rewrite rs_upd_mark by assumption. reflexivity. Qed.
-    Lemma rs_state : rstate_at m br bl (rs_cells bl p marks pc flg dep) p flg.
-    Proof. split; [exact Hm|]. split; [reflexivity|]. split; [reflexivity|]. apply rs_nth_flg. exact Hlen. Qed.
-  End Cells.
 
   (* the current instruction *)
   Lemma fetch_at m pc : frame m -> (pc < length P)%nat ->
@@ -577,3 +587,307 @@ Proof.
     exact (re_rec_call bre bp br bl P cflg flg line fuel H1 H2 H3 H4 H5 H6 H7 H8 H9 H10 H11 (S (dm + e)) H12 dm Hprev Hdm).
 Qed.
 Print Assumptions tr_re_rec.
+
+(* ------------------------------------------------------------------ the machine is parametric in the state *)
+(* two runs of ReVM.rec from related states take the same decisions and end in related states (used twice: the marks
+   beyond 2 * nsub that re_recmatch does not reset never influence the run; positions and marks stay inside int) *)
+Section RecRel.
+  Variables (St : Type) (astep : atom -> St -> ReSyntax.res (option St)) (mstep : nat -> St -> St) (P : list instr).
+  Variable R : St -> St -> Prop.
+  Hypothesis Hatom : forall a s s', R s s' ->
+    match astep a s, astep a s' with
+    | ReSyntax.Ok (Some t), ReSyntax.Ok (Some t') => R t t'
+    | ReSyntax.Ok None, ReSyntax.Ok None => True
+    | OOB w, OOB w' => w = w'
+    | NoFuel, NoFuel => True
+    | _, _ => False
+    end.
+  Hypothesis Hmark : forall k s s', R s s' -> R (mstep k s) (mstep k s').
+  Definition out_rel (x y : out St * N) : Prop :=
+    snd x = snd y /\
+    match fst x, fst y with
+    | Found cs r, Found cs' r' => cs = cs' /\ R r r'
+    | Fail, Fail => True
+    | Abort, Abort => True
+    | OobO w, OobO w' => w = w'
+    | _, _ => False
+    end.
+  Lemma loop_rel (c1 c2 : nat -> St -> out St * N) : (forall pc s s', R s s' -> out_rel (c1 pc s) (c2 pc s')) ->
+    forall k pc s s', R s s' -> out_rel (loopF St astep mstep P c1 k pc s) (loopF St astep mstep P c2 k pc s').
+  Proof.
+    intro Hc. induction k as [|k IH]; intros pc s s' Hs; cbn [loopF]; [split; reflexivity|].
+    destruct (fetch P pc) as [a|mk|t|a1 a2|].
+    - pose proof (Hatom a s s' Hs) as Ha. destruct (astep a s) as [[t|]|w|], (astep a s') as [[t'|]|w'|]; try contradiction.
+      + apply IH. exact Ha.
+      + split; reflexivity.
+      + split; [reflexivity|exact Ha].
+      + split; reflexivity.
+    - apply IH. apply Hmark. exact Hs.
+    - apply IH. exact Hs.
+    - pose proof (Hc a1 s s' Hs) as H1. destruct (c1 a1 s) as [o1 n1], (c2 a1 s') as [o2 n2]. destruct H1 as [E1 H1]. cbn [fst snd] in E1, H1. subst n2.
+      destruct o1 as [cs r| | |w], o2 as [cs' r'| | |w']; try contradiction.
+      + destruct H1 as [-> H1]. split; [reflexivity|]. split; [reflexivity|exact H1].
+      + pose proof (IH a2 s s' Hs) as H2.
+        destruct (loopF St astep mstep P c1 k a2 s) as [o3 n3], (loopF St astep mstep P c2 k a2 s') as [o4 n4].
+        destruct H2 as [E2 H2]. cbn [fst snd] in E2, H2. subst n4.
+        destruct o3 as [cs r| | |w], o4 as [cs' r'| | |w']; try contradiction; split; cbn [fst snd]; try reflexivity; try exact H2.
+        destruct H2 as [-> H2]. split; [reflexivity|exact H2].
+      + split; reflexivity.
+      + split; [reflexivity|exact H1].
+    - split; [reflexivity|]. split; [reflexivity|exact Hs].
+  Qed.
+  Lemma rec_rel : forall d pc s s', R s s' -> out_rel (ReVM.rec St astep mstep P d pc s) (ReVM.rec St astep mstep P d pc s').
+  Proof.
+    induction d as [|d IH]; intros pc s s' Hs; cbn [ReVM.rec]; [split; reflexivity|].
+    apply loop_rel; [exact IH|exact Hs].
+  Qed.
+End RecRel.
+
+(* ---- instance 1: the position stays inside the line and the marks inside int *)
+Lemma ints_ok_revm_upd l i v : ints_ok l -> -2147483648 <= v <= 2147483647 -> ints_ok (ReVM.upd l i v).
+Proof.
+  unfold ints_ok. intros H Hv. revert i; induction H as [|x l Hx Hl IH]; intros [|i]; cbn [ReVM.upd]; constructor; auto.
+Qed.
+Definition st_inv (line : bytes) (s : st) : Prop := (fst s <= length line)%nat /\ ints_ok (snd s).
+Lemma rec_inv flg line P d pc s cs r c : Z.of_nat (length line) < 2147483647 -> st_inv line s ->
+  ReVM.rec st (atom_step flg line) mark_step P d pc s = (Found cs r, c) -> st_inv line r.
+Proof.
+  intros Hl Hs Hr.
+  pose proof (rec_rel st (atom_step flg line) mark_step P (fun s s' => s = s' /\ st_inv line s)) as X.
+  assert (Y : out_rel st (fun s s' => s = s' /\ st_inv line s)
+                (ReVM.rec st (atom_step flg line) mark_step P d pc s) (ReVM.rec st (atom_step flg line) mark_step P d pc s)).
+  { apply X; [| |split; [reflexivity|exact Hs]].
+    - intros a s0 s' [<- [H1 H2]]. unfold atom_step.
+      destruct (ratom_match flg line a (fst s0)) as [[q|]| |] eqn:E; cbn [ReSyntax.bind]; auto.
+      split; [reflexivity|]. split; [|exact H2]. cbn [fst]. exact (proj2 (ReProps8.ratom_match_range flg line a _ q H1 E)).
+    - intros k s0 s' [<- [H1 H2]]. split; [reflexivity|]. unfold mark_step. destruct (_ <? _); [|split; assumption].
+      split; [exact H1|]. cbn [snd fst]. apply ints_ok_revm_upd; [exact H2|lia]. }
+  rewrite Hr in Y. destruct Y as [_ [_ [_ Y]]]. exact Y.
+Qed.
+
+(* ---- instance 2: only the first n marks matter for the first n marks *)
+Definition agree (n : nat) (M M' : list Z) : Prop := length M = length M' /\ firstn n M = firstn n M'.
+Lemma firstn_revm_upd (l : list Z) : forall n k v, firstn n (ReVM.upd l k v) = ReVM.upd (firstn n l) k v.
+Proof.
+  induction l as [|x l IH]; intros n k v; [destruct n; reflexivity|].
+  destruct n as [|n]; [destruct k; reflexivity|]. destruct k as [|k]; [reflexivity|]. cbn [ReVM.upd firstn]. rewrite IH. reflexivity.
+Qed.
+Lemma agree_upd n M M' k v : agree n M M' -> agree n (ReVM.upd M k v) (ReVM.upd M' k v).
+Proof. intros [H1 H2]. split; [rewrite !revm_upd_length; exact H1|]. rewrite !firstn_revm_upd, H2. reflexivity. Qed.
+Lemma agree_refl n M : agree n M M.
+Proof. split; reflexivity. Qed.
+Lemma agree_nth n M M' i d : agree n M M' -> (i < n)%nat -> nth i M d = nth i M' d.
+Proof.
+  intros [H1 H2] Hi. rewrite <- (firstn_skipn n M), <- (firstn_skipn n M').
+  destruct (Nat.lt_ge_cases i (length M)) as [L|L].
+  - rewrite !app_nth1 by (rewrite firstn_length; lia). rewrite H2. reflexivity.
+  - rewrite !nth_overflow; [reflexivity| |]; rewrite app_length, firstn_length, skipn_length; lia.
+Qed.
+Lemma rec_agree flg line P n d pc p M M' : agree n M M' ->
+  out_rel st (fun s s' => fst s = fst s' /\ agree n (snd s) (snd s'))
+    (ReVM.rec st (atom_step flg line) mark_step P d pc (p, M)) (ReVM.rec st (atom_step flg line) mark_step P d pc (p, M')).
+Proof.
+  intro Ha. apply rec_rel; [| |split; [reflexivity|exact Ha]].
+  - intros a s s' [H1 H2]. unfold atom_step. rewrite <- H1.
+    destruct (ratom_match flg line a (fst s)) as [[q|]| |]; cbn [ReSyntax.bind]; auto.
+  - intros k s s' [H1 H2]. unfold mark_step. destruct (_ <? _); [|split; assumption].
+    split; [exact H1|]. cbn [snd fst]. rewrite H1. apply agree_upd. exact H2.
+Qed.
+Lemma psub_of_agree M M' nsub : agree (Nat.min 128 (2 * nsub)) M M' -> psub_of M nsub = psub_of M' nsub.
+Proof.
+  intro Ha. unfold psub_of. apply map_ext_in. intros i Hi. apply in_seq in Hi. change nmarks with 128%nat.
+  destruct (Nat.ltb_spec (i * 2) 128); [|reflexivity].
+  rewrite (agree_nth _ M M' (i * 2) _ Ha) by lia. rewrite (agree_nth _ M M' (i * 2 + 1) _ Ha) by lia. reflexivity.
+Qed.
+
+(* ------------------------------------------------------------------ re_recmatch *)
+Definition rm_init_loop : stmt :=
+  match fn_body cf_re_recmatch with SSeq _ (SSeq _ (SSeq (SSeq _ f) _)) => f | _ => SSkip end.
+Definition rm_psub_loop : stmt :=
+  match fn_body cf_re_recmatch with SSeq _ (SSeq _ (SSeq _ (SSeq (SIf _ (SSeq (SSeq _ f) _) _) _))) => f | _ => SSkip end.
+
+(* for (i = 0; i < LEN(rs->mark) && i < nsub * 2; i++) rs->mark[i] = -1;  k more cells from cell i on *)
+Fixpoint fill_marks (M : list Z) (i k : nat) : list Z :=
+  match k with O => M | S k' => fill_marks (ReVM.upd M i (-1)) (S i) k' end.
+Lemma fill_marks_length M : forall k i, length (fill_marks M i k) = length M.
+Proof. intros k; revert M; induction k as [|k IH]; intros M i; cbn [fill_marks]; [reflexivity|]. rewrite IH. apply revm_upd_length. Qed.
+
+Section InitLoop.
+  Variables (br bl : nat) (flg : Z) (call : nat -> list val -> mem -> res (val * mem)).
+  Variables (v0 v3 : val) (nsub : Z) (p : nat) (pc dep : Z).
+  Hypothesis Hnsub : 0 <= nsub /\ nsub * 2 <= 2147483647.
+  Let n := Nat.min 128 (Z.to_nat (nsub * 2)).
+
+  Lemma init_loop_ok : forall k i m M lf, (n - i = k)%nat -> (i <= n)%nat ->
+    nth_error m br = Some (rs_cells bl p M pc flg dep) -> length M = 128%nat -> (k < lf)%nat ->
+    exec call lf rm_init_loop (mkst [v0; VPtr br 0; VInt nsub; v3; VInt (Z.of_nat i)] m)
+    = ONormal (mkst [v0; VPtr br 0; VInt nsub; v3; VInt (Z.of_nat n)] (upd m br (rs_cells bl p (fill_marks M i k) pc flg dep))).
+  Proof.
+    induction k as [|k IH]; intros i m M lf Hk Hi Hm Hlen Hlf; (destruct lf as [|lf]; [lia|]);
+      unfold rm_init_loop; cbn [fn_body cf_re_recmatch]; rewrite exec_for; xstep;
+      change (if 4 =? 0 then Err EDivZero else chk U64 (512 ÷ 4)) with (@Ok Z 128); xstep;
+      rewrite (wrap_U64_id (Z.of_nat i)) by lia.
+    - assert (i = n) as -> by lia. cbn [fill_marks]. rewrite (upd_self m br _ Hm).
+      destruct (Z.ltb_spec (Z.of_nat n) 128); xstep; [|reflexivity].
+      rewrite (chk_I32 (nsub * 2)) by lia. xstep.
+      destruct (Z.ltb_spec (Z.of_nat n) (nsub * 2)); [lia|]. reflexivity.
+    - destruct (Z.ltb_spec (Z.of_nat i) 128); [|lia]. xstep.
+      rewrite (chk_I32 (nsub * 2)) by lia. xstep.
+      destruct (Z.ltb_spec (Z.of_nat i) (nsub * 2)); [|lia]. xstep.
+      change (chk I32 (- (1))) with (@Ok Z (-1)). xstep. change (wrap I32 (-1)) with (-1).
+      rewrite (st_mark m p M pc dep Hm Hlen i) by lia. xstep.
+      rewrite (chk_I32 (Z.of_nat i + 1)) by lia. xstep.
+      replace (Z.of_nat i + 1) with (Z.of_nat (S i)) by lia.
+      assert (Hb : (br < length m)%nat) by (apply nth_error_Some; congruence).
+      pose proof (IH (S i) (upd m br (rs_cells bl p (ReVM.upd M i (-1)) pc flg dep)) (ReVM.upd M i (-1)) lf ltac:(lia) ltac:(lia)
+                    (mem_upd_same _ _ _ Hb) ltac:(rewrite revm_upd_length; exact Hlen) ltac:(lia)) as X.
+      unfold rm_init_loop in X; cbn [fn_body cf_re_recmatch] in X. rewrite X. cbn [fill_marks]. rewrite upd_upd by exact Hb. reflexivity.
+  Qed.
+End InitLoop.
+
+Lemma fill_marks_firstn : forall k M i, (i + k <= length M)%nat ->
+  firstn (i + k) (fill_marks M i k) = firstn i M ++ repeat (-1) k.
+Proof.
+  induction k as [|k IH]; intros M i H; cbn [fill_marks repeat].
+  - rewrite Nat.add_0_r, app_nil_r. reflexivity.
+  - replace (i + S k)%nat with (S i + k)%nat by lia. rewrite IH by (rewrite revm_upd_length; lia).
+    rewrite revm_upd_eq by lia. unfold upd. rewrite firstn_app, firstn_firstn, firstn_length.
+    replace (Nat.min (S i) i) with i by lia. replace (S i - Nat.min i (length M))%nat with 1%nat by lia.
+    cbn [firstn]. rewrite <- app_assoc. reflexivity.
+Qed.
+Lemma fill_marks_agree M n : length M = 128%nat -> (n <= 128)%nat -> agree n (repeat (-1) 128) (fill_marks M 0 n).
+Proof.
+  intros Hl Hn. split; [rewrite fill_marks_length, repeat_length; symmetry; exact Hl|].
+  pose proof (fill_marks_firstn n M 0 ltac:(lia)) as X. cbn [Nat.add firstn app] in X. rewrite X.
+  replace 128%nat with (n + (128 - n))%nat by lia. rewrite repeat_app, firstn_app, repeat_length, Nat.sub_diag.
+  cbn [firstn]. rewrite app_nil_r. apply firstn_all2. rewrite repeat_length. lia.
+Qed.
+Lemma fill_marks_ints M : forall k i, ints_ok M -> ints_ok (fill_marks M i k).
+Proof. intros k; revert M; induction k as [|k IH]; intros M i H; cbn [fill_marks]; [exact H|]. apply IH. apply ints_ok_revm_upd; [exact H|lia]. Qed.
+
+Lemma wrap_I64_small z : -2147483648 <= z <= 2147483647 -> wrap I64 z = z.
+Proof.
+  intro H. unfold wrap. cbn [ity_bits ity_signed andb].
+  change (2 ^ 64) with 18446744073709551616. change (2 ^ (64 - 1)) with 9223372036854775808.
+  destruct (Z.leb_spec 9223372036854775808 (z mod 18446744073709551616)) as [L|L].
+  - assert (z < 0) by (destruct (Z.lt_ge_cases z 0); [assumption|rewrite Z.mod_small in L by lia; lia]).
+    rewrite <- (Z.mod_add z 1 18446744073709551616) by lia. rewrite Z.mod_small by lia. lia.
+  - assert (0 <= z) by (destruct (Z.lt_ge_cases z 0); [|assumption]; exfalso;
+      rewrite <- (Z.mod_add z 1 18446744073709551616) in L by lia; rewrite Z.mod_small in L by lia; lia).
+    apply Z.mod_small. lia.
+Qed.
+Lemma tab_block_app a b : tab_block (a ++ b) = tab_block a ++ tab_block b.
+Proof. unfold tab_block. apply flat_map_app. Qed.
+Lemma tab_block_length a : length (tab_block a) = (2 * length a)%nat.
+Proof. induction a as [|x a IH]; [reflexivity|]. cbn [tab_block flat_map app length] in *. unfold tab_block in IH. rewrite IH. lia. Qed.
+Lemma psub_of_length M n : length (psub_of M n) = n.
+Proof. unfold psub_of. rewrite map_length, seq_length. reflexivity. Qed.
+Lemma psub_of_S M n : psub_of M (S n) = psub_of M n ++
+  [if Nat.ltb (n * 2) nmarks then (nth (n * 2) M (-1), nth (n * 2 + 1) M (-1)) else (-1, -1)].
+Proof. unfold psub_of. rewrite seq_S, map_app. reflexivity. Qed.
+
+Section PsubLoop.
+  Variables (br bl bps : nat) (flg : Z) (call : nat -> list val -> mem -> res (val * mem)).
+  Variables (v0 : val) (nsub : Z) (p : nat) (M : list Z) (pc dep : Z) (pcells : list val).
+  Hypothesis Hnsub : 0 <= nsub /\ nsub * 2 <= 2147483647.
+  Hypothesis Hne : bps <> br.
+  Hypothesis HM : ints_ok M.
+  Hypothesis Hlen : length M = 128%nat.
+  Hypothesis Hpl : (2 * Z.to_nat nsub <= length pcells)%nat.
+  Let ns := Z.to_nat nsub.
+
+  Lemma psub_loop_ok : forall k i m lf, (ns - i = k)%nat -> (i <= ns)%nat ->
+    nth_error m br = Some (rs_cells bl p M pc flg dep) ->
+    nth_error m bps = Some (tab_block (psub_of M i) ++ skipn (2 * i) pcells) -> (k < lf)%nat ->
+    exec call lf rm_psub_loop (mkst [v0; VPtr br 0; VInt nsub; VPtr bps 0; VInt (Z.of_nat i)] m)
+    = ONormal (mkst [v0; VPtr br 0; VInt nsub; VPtr bps 0; VInt (Z.of_nat ns)] (upd m bps (tab_block (psub_of M ns) ++ skipn (2 * ns) pcells))).
+  Proof.
+    induction k as [|k IH]; intros i m lf Hk Hi Hm Hps Hlf; (destruct lf as [|lf]; [lia|]);
+      unfold rm_psub_loop; cbn [fn_body cf_re_recmatch]; rewrite exec_for; xstep.
+    - assert (i = ns) as -> by lia. destruct (Z.ltb_spec (Z.of_nat ns) nsub); [lia|]. xstep.
+      rewrite (upd_self m bps _ Hps). reflexivity.
+    - destruct (Z.ltb_spec (Z.of_nat i) nsub); [|lia]. xstep.
+      assert (Hbps : (bps < length m)%nat) by (apply nth_error_Some; congruence).
+      set (pre := tab_block (psub_of M i)) in *.
+      assert (Hpre : length pre = (2 * i)%nat) by (unfold pre; rewrite tab_block_length, psub_of_length; reflexivity).
+      assert (Hsk : exists a b, skipn (2 * i) pcells = a :: b :: skipn (2 * S i) pcells).
+      { replace (2 * S i)%nat with (2 * i + 2)%nat by lia. rewrite <- skipn_skipn.
+        pose proof (skipn_length (2 * i) pcells) as L. destruct (skipn (2 * i) pcells) as [|a [|b r]]; cbn [length] in L; try lia.
+        exists a, b. reflexivity. }
+      destruct Hsk as [a [b Hsk]]. rewrite Hsk in Hps. set (rest := skipn (2 * S i) pcells) in *.
+      (* the value of one field: the mark if its index is below LEN(rs->mark), else -1 *)
+      set (so := if Nat.ltb (i * 2) nmarks then nth (i * 2) M (-1) else -1).
+      set (eo := if Nat.ltb (i * 2) nmarks then nth (i * 2 + 1) M (-1) else -1).
+      assert (Hnth : forall j, (j < 128)%nat -> wrap I32 (nth j M 0) = nth j M (-1)).
+      { intros j Hj. rewrite (nth_indep M 0 (-1)) by lia. apply wrap_I32_id.
+        pose proof (nthz_ok M (Z.of_nat j) HM) as X. unfold nthz in X. rewrite Nat2Z.id in X. rewrite (nth_indep M (-1) 0) by lia. exact X. }
+      assert (Hso : -2147483648 <= so <= 2147483647).
+      { unfold so. destruct (Nat.ltb_spec (i * 2) nmarks) as [L|L]; [|lia]. change nmarks with 128%nat in L.
+        rewrite <- (Hnth _ L). pose proof (nthz_ok M (Z.of_nat (i * 2)) HM) as X. unfold nthz in X. rewrite Nat2Z.id in X.
+        rewrite wrap_I32_id by exact X. exact X. }
+      assert (Heo : -2147483648 <= eo <= 2147483647).
+      { unfold eo. destruct (Nat.ltb_spec (i * 2) nmarks) as [L|L]; [|lia]. change nmarks with 128%nat in L.
+        rewrite <- (Hnth (i * 2 + 1)%nat) by lia. pose proof (nthz_ok M (Z.of_nat (i * 2 + 1)) HM) as X. unfold nthz in X. rewrite Nat2Z.id in X.
+        rewrite wrap_I32_id by exact X. exact X. }
+      rewrite (chk_I32 (Z.of_nat i * 2)) by lia. xstep.
+      change (if 4 =? 0 then Err EDivZero else chk U64 (512 ÷ 4)) with (@Ok Z 128). xstep.
+      rewrite (wrap_U64_id (Z.of_nat i * 2)) by lia.
+      assert (Hb1 : (Z.of_nat i * 2 <? 128) = Nat.ltb (i * 2) nmarks).
+      { change nmarks with 128%nat. destruct (Z.ltb_spec (Z.of_nat i * 2) 128), (Nat.ltb_spec (i * 2) 128); try reflexivity; lia. }
+      rewrite Hb1.
+      assert (Hm1 : forall B, nth_error (upd m bps B) br = Some (rs_cells bl p M pc flg dep)).
+      { intro B. rewrite mem_upd_other; [exact Hm|exact Hbps|congruence]. }
+      (* rm_so *)
+      assert (V1 : forall mm, nth_error mm br = Some (rs_cells bl p M pc flg dep) -> forall lo, 
+        (if Nat.ltb (i * 2) nmarks
+         then do c <- load mm br (0 + 1 * 2 + 1 * (Z.of_nat i * 2));
+              match c with
+              | VUndef => Err EUndef
+              | VInt z => Ok (VInt (wrap I32 z), mkst lo mm)
+              | VPtr _ _ => Err EType
+              end
+         else Ok (VInt (-1), mkst lo mm)) = Ok (VInt so, mkst lo mm)).
+      { intros mm Hmm lo. unfold so. destruct (Nat.ltb_spec (i * 2) nmarks) as [L|L]; [|reflexivity]. change nmarks with 128%nat in L.
+        replace (Z.of_nat i * 2) with (Z.of_nat (i * 2)) by lia. rewrite (ld_mark mm p M pc dep Hmm Hlen (i * 2)) by lia.
+        cbn [bind]. rewrite Hnth by lia. reflexivity. }
+      assert (V2 : forall mm, nth_error mm br = Some (rs_cells bl p M pc flg dep) -> forall lo, 
+        (if Nat.ltb (i * 2) nmarks
+         then do c <- load mm br (0 + 1 * 2 + 1 * (Z.of_nat i * 2 + 1));
+              match c with
+              | VUndef => Err EUndef
+              | VInt z => Ok (VInt (wrap I32 z), mkst lo mm)
+              | VPtr _ _ => Err EType
+              end
+         else Ok (VInt (-1), mkst lo mm)) = Ok (VInt eo, mkst lo mm)).
+      { intros mm Hmm lo. unfold eo. destruct (Nat.ltb_spec (i * 2) nmarks) as [L|L]; [|reflexivity]. change nmarks with 128%nat in L.
+        replace (Z.of_nat i * 2 + 1) with (Z.of_nat (i * 2 + 1)) by lia. rewrite (ld_mark mm p M pc dep Hmm Hlen (i * 2 + 1)) by lia.
+        cbn [bind]. rewrite Hnth by lia. reflexivity. }
+      xstep; rewrite ?(chk_I32 (Z.of_nat i * 2)) by lia; xstep.
+      change (chk I32 (- (1))) with (@Ok Z (-1)). xstep.
+      rewrite (V1 m Hm). xstep. rewrite !(wrap_I64_small so) by exact Hso.
+      rewrite (store_ok m bps _ _ _ Hps) by (rewrite app_length, Hpre; cbn [length]; lia). xstep.
+      replace (Z.to_nat (0 + 2 * Z.of_nat i)) with (2 * i)%nat by lia.
+      rewrite (upd_mid pre (b :: rest) a (VInt so) (2 * i) Hpre).
+      (* rm_eo *)
+      rewrite (chk_I32 (Z.of_nat i * 2)) by lia. xstep.
+      change (if 4 =? 0 then Err EDivZero else chk U64 (512 ÷ 4)) with (@Ok Z 128). xstep.
+      rewrite (wrap_U64_id (Z.of_nat i * 2)) by lia. rewrite Hb1.
+      xstep; rewrite ?(chk_I32 (Z.of_nat i * 2)) by lia; xstep.
+      rewrite ?(chk_I32 (Z.of_nat i * 2 + 1)) by lia; xstep.
+      change (chk I32 (- (1))) with (@Ok Z (-1)). xstep.
+      rewrite (V2 _ (Hm1 _)). xstep. rewrite !(wrap_I64_small eo) by exact Heo.
+      rewrite (store_ok _ bps _ _ _ (mem_upd_same m bps _ Hbps)) by (rewrite app_length, Hpre; cbn [length]; lia). xstep.
+      replace (Z.to_nat (0 + 2 * Z.of_nat i + 1 * 1)) with (2 * i + 1)%nat by lia.
+      change (pre ++ VInt so :: b :: rest) with (pre ++ [VInt so] ++ b :: rest). rewrite app_assoc.
+      rewrite (upd_mid (pre ++ [VInt so]) rest b (VInt eo) (2 * i + 1)) by (rewrite app_length, Hpre; cbn [length]; lia).
+      rewrite upd_upd by exact Hbps.
+      rewrite (chk_I32 (Z.of_nat i + 1)) by lia. xstep. replace (Z.of_nat i + 1) with (Z.of_nat (S i)) by lia.
+      assert (Hps2 : (pre ++ [VInt so]) ++ VInt eo :: rest = tab_block (psub_of M (S i)) ++ skipn (2 * S i) pcells).
+      { rewrite psub_of_S, tab_block_app. fold pre. fold rest. rewrite <- !app_assoc. f_equal.
+        unfold so, eo. destruct (Nat.ltb (i * 2) nmarks); reflexivity. }
+      rewrite Hps2.
+      pose proof (IH (S i) (upd m bps (tab_block (psub_of M (S i)) ++ skipn (2 * S i) pcells)) lf ltac:(lia) ltac:(lia)
+                    (Hm1 _) (mem_upd_same m bps _ Hbps) ltac:(lia)) as X.
+      unfold rm_psub_loop in X; cbn [fn_body cf_re_recmatch] in X. rewrite X. rewrite upd_upd by exact Hbps. reflexivity.
+  Qed.
+End PsubLoop.
